@@ -77,7 +77,7 @@ def check_model(ctx, sfx, doc, model_path, what):
     nrs = len(re.findall(r"^def rs\d+ : RStruct", p.stdout, re.M))
     layer2, lemma2, imports2 = tableprop.sliced_all(HDR, f"C07{sfx}w", f"{ns}.rust.structs", "fun s => s.fields.all (fun f => f.wireHint == f.wire s)", 40, nrs, f"C07{sfx}_wire_chk")
     layer.append((f"C07{sfx}rest", HDR + f"theorem C07{sfx}_rest_chk : rustRestOK {ns}.model {ns}.rust = [] := by decide +kernel\n"))
-    thm = "C07" if not sfx else "C07_evolved"
+    thm = "C07" if not sfx else ("C07_evolved" if sfx == "E" else f"C07_evolved_{sfx}")
     final = imports + imports2 + f"import C07{sfx}rest\n" + HDR + lemma + lemma2 + f"""
 /-- C07 ({what}): every structure's serde names / types / Option / feature gates, every enumeration's
     discriminants, every `or` alias, the method enums and the message structs conform. -/
@@ -130,6 +130,19 @@ def run(ctx):
         if sv.stdout.strip() != "ok":
             raise Broken("the evolved metamodel is not schema-valid (tools/evolve.py): " + sv.stdout[:300] + sv.stderr[-300:])
         problems += check_model(ctx, "E", edoc, mf, "the evolved metamodel [" + desc[:300] + " ...]")
+        if ctx.thorough():
+            # thorough tier: the obligations proved for further evolved metamodels, seeded edit sequences (VERIF_SEED)
+            import random
+            import evolve
+            for i, (tag, sdesc, sdoc) in enumerate(evolve.seeded(doc, random.Random(ctx.seed * 7919 + 17), 3, length=(3, 6))):
+                if evolve.discipline_problems(sdoc):
+                    continue
+                mfs = d / f"model-s{i}.json"
+                mfs.write_text(json.dumps(sdoc))
+                sv = common.run_py(common.VERIF / "tools/search/schema_ok.py", [str(mfs)], check=False)
+                if sv.stdout.strip() != "ok":
+                    raise Broken("a seeded evolved metamodel is not schema-valid (tools/evolve.py): " + sdesc[:200])
+                problems += check_model(ctx, f"S{i}", sdoc, mfs, f"seeded evolved metamodel {i} [" + sdesc[:300] + " ...]")
     finally:
         shutil.rmtree(d, ignore_errors=True)
     if problems and not ctx.violations:
